@@ -196,18 +196,29 @@ def sopOf (toks : List Tok) : Option SOp :=
       pure (.mergeChains (← s.nat?) (← (← cs.list?).mapM Tok.optStr?) ((← a.int?) != 0))
   | _ => (opOf toks).map SOp.mol
 
-def dumpState (st : State) : String :=
-  dumpPool st.pool ++ " " ++ encList (st.systems.map fun l => encList (l.map encNat)) ++ " " ++
+/-- the driver keeps the dump string of every pool member and recomputes it only for members that
+changed (structural equality on `Mol`), which is what makes long histories affordable -/
+abbrev Cache := List (Mol × String)
+
+def dumpPoolC (cache : Cache) (p : Pool) : Cache :=
+  (p.zipIdx).map fun (m, i) =>
+    match cache[i]? with
+    | some (m', s) => if m' == m then (m, s) else (m, dumpMol m)
+    | none => (m, dumpMol m)
+
+def dumpStateC (cache : Cache) (st : State) : String :=
+  encList (cache.map Prod.snd) ++ " " ++ encList (st.systems.map fun l => encList (l.map encNat)) ++ " " ++
     encList (st.sysff.map encOptStr)
 
-def handle (st : State) (toks : List Tok) : State × String :=
+def handle (sc : State × Cache) (toks : List Tok) : (State × Cache) × String :=
   match toks with
-  | [Tok.str "reset"] => ({}, "ok [ ]")
+  | [Tok.str "reset"] => (({}, []), "ok [ ]")
   | _ =>
     match sopOf toks with
-    | none => (st, "bad-op")
+    | none => (sc, "bad-op")
     | some op =>
-      let (st', o) := sstep st op
-      (st', o.str ++ " " ++ dumpState st')
+      let (st', o) := sstep sc.1 op
+      let cache := dumpPoolC sc.2 st'.pool
+      ((st', cache), o.str ++ " " ++ dumpStateC cache st')
 
-def main : IO Unit := runDriver handle ({} : State)
+def main : IO Unit := runDriver handle (({}, []) : State × Cache)
